@@ -8,6 +8,7 @@ import (
 	"net/http/httptest"
 	"strings"
 	"sync"
+	"time"
 
 	tpl "code.gopub.tech/tpl"
 	"code.gopub.tech/tpl/html"
@@ -374,6 +375,85 @@ func propC18(c *ctx) error {
 					J{"reload_err": fmt.Sprint(rerr), "request1": first, "request2": w.Body.String(), "request3": w2.Body.String()},
 					"a request started after a successful Reload is not served from the new template set (or a failed Reload changed the set)")
 			}
+		}
+	}
+	// directed interleavings of TWO Reloads: Reload A is held inside the factory (it has read version 2 of the sources);
+	// the sources change to version 3 (or break); Reload B runs to completion meanwhile. B is a Reload like any other:
+	// it builds (the factory is called for it), returns the factory's error if it fails, and when it succeeds a request
+	// started after it returned — A still being held — is served from B's set.
+	for _, bOK := range []bool{true, false} {
+		holdA := make(chan struct{})
+		inA := make(chan struct{}, 1)
+		var bmu sync.Mutex
+		version, calls, broken := 1, 0, false
+		b := func(ctx context.Context) (types.TemplateManager, error) {
+			bmu.Lock()
+			calls++
+			n, v, br := calls, version, broken
+			bmu.Unlock()
+			if n == 2 { // Reload A: holds after reading the sources
+				inA <- struct{}{}
+				<-holdA
+			}
+			if br && n != 2 {
+				return nil, errBuild
+			}
+			return &stubMgr{id: v}, nil
+		}
+		rr, err := tpl.NewHTMLRender(b)
+		if err != nil {
+			return err
+		}
+		bmu.Lock()
+		version = 2
+		bmu.Unlock()
+		aDone := make(chan error, 1)
+		go func() { aDone <- rr.Reload(context.Background()) }()
+		<-inA
+		bmu.Lock()
+		version, broken = 3, !bOK
+		bmu.Unlock()
+		bDone := make(chan error, 1)
+		go func() { bDone <- rr.Reload(context.Background()) }()
+		var berr error
+		bReturned := true
+		select {
+		case berr = <-bDone:
+		case <-time.After(2 * time.Second):
+			bReturned = false // B waits for A (a serialising implementation): release A and then judge B's own result
+		}
+		w := httptest.NewRecorder()
+		if bReturned {
+			rr.Instance(context.Background(), "a", nil).Render(w)
+		}
+		close(holdA)
+		aerr := <-aDone
+		if !bReturned {
+			berr = <-bDone
+			rr.Instance(context.Background(), "a", nil).Render(w)
+		}
+		bmu.Lock()
+		nCalls := calls
+		bmu.Unlock()
+		cs := J{"schedule": "Reload A held inside the factory (sources v2); sources become v3; Reload B; request; release A", "reload_b_ok": bOK, "b_returned_while_a_held": bReturned}
+		res.eval("sched2|"+jstr(cs), true, cs)
+		res.S3Checked++
+		wantServed := "m3:a"
+		if !bOK {
+			wantServed = "m1:a" // nothing new has been built successfully yet when the request is made (A is held) …
+			if !bReturned {
+				wantServed = "m2:a" // … unless B waited for A, whose set is then in service
+			}
+		}
+		switch {
+		case aerr != nil:
+			res.violate(cs, "Reload A succeeds", fmt.Sprint(aerr), "a Reload whose factory succeeded returned an error")
+		case (berr == nil) != bOK:
+			res.violate(cs, J{"reload_b_error": !bOK}, J{"reload_b_error": fmt.Sprint(berr), "factory_calls": nCalls}, "a Reload overlapping another one does not return its own factory's result")
+		case nCalls != 3:
+			res.violate(cs, "3 factory calls (initial, A, B)", nCalls, "a Reload overlapping another one did not build")
+		case w.Body.String() != wantServed:
+			res.violate(cs, wantServed, w.Body.String(), "a request started after a successful Reload returned is not served from that Reload's template set")
 		}
 	}
 	// concurrent Reload and requests: every request must be served from SOME successfully built set, never a torn one
